@@ -302,7 +302,10 @@ class Functor(pg_object.Object, utils.Functor):
               f'Cannot delete attribute {name!r} while accessor_writable is '
               f'set to False. Use \'rebind\' method instead.'))
     del self._sym_attributes[name]
-    if self.__signature__.get_value_spec(name).has_default:
+    # NOTE: the field covers the variable positional arguments (stored under
+    # their own name) as well, which the signature does not resolve by name.
+    field = self.__class__.__schema__.get_field(name)
+    if field is not None and field.value.has_default:
       self._default_args.add(name)
     self._specified_args.discard(name)
     self._non_default_args.discard(name)
